@@ -131,6 +131,14 @@ Fixpoint map2 {A B C} (f : A -> B -> C) (a : list A) (b : list B) : list C :=
 Definition sample_on (w v : list Qc) (fa : list Qc) (grid : list Qc) : list Qc :=
   map2 (fun x f => if inrange w x then interp w v x else f) grid fa.
 
+(* Spectrum.sample(wave, 'linear', fill_value, waveunit): a copy is converted when the unit differs;
+   interp1d(bounds_error=False) puts the fill value (below, above) outside the data range *)
+Definition fill_at (f : fillv) (w : list Qc) (x : Qc) : Qc :=
+  match f with FScalar c => c | FPair lo hi => if qltb x (wmin w) then lo else hi end.
+Definition sample (s : spectrum) (pts : list Qc) (f : fillv) (u : wunit) : list Qc :=
+  let s' := conv s u in
+  map (fun x => if inrange (wave s') x then interp (wave s') (value s') x else fill_at f (wave s') x) pts.
+
 (* ---------------------------------------------------------------- the five ufuncs *)
 Inductive binop := OAdd | OSub | OMul | ODiv | OPow.
 (* a float result: a rational, or inf/nan, or a value that is not a rational function of the
@@ -211,3 +219,26 @@ Definition rto (r : rspectrum) (u : wunit) : rspectrum :=
   mkR (map (fun x => x * ufac (rwu r) u) (rwave r)) (rvalue r) u (rvu r).
 Definition scale_sampling (c : Qc) (m : sampling) : sampling :=
   match m with SNum d => SNum (d * c) | _ => m end.
+
+(* ================================================================ specification vocabulary
+   (used only in the statements of Properties/C13.v; nothing below is executed) *)
+Definition rmap_res {A B} (g : A -> B) (r : result A) : result B :=
+  match r with Ok a => Ok (g a) | Err e => Err e end.
+(* strictly increasing wavelengths - what the wave setter enforces *)
+Fixpoint incr (w : list Qc) : Prop :=
+  match w with a :: ((b :: _) as t) => a < b /\ incr t | _ => True end.
+Definition wf (s : spectrum) : Prop := incr (wave s) /\ length (wave s) = length (value s) /\ wave s <> [].
+(* m is the smallest element of l *)
+Definition is_min_of (l : list Qc) (m : Qc) : Prop := In m l /\ forall y, In y l -> m <= y.
+(* y is the value at x of the piecewise-linear interpolant through the samples (w_k, v_k): x lies on a
+   segment [w_k, w_k+1] and y on its chord (a one-sample spectrum is defined at its sample only) *)
+Definition on_interpolant (w v : list Qc) (x y : Qc) : Prop :=
+  (length w = 1%nat /\ x = nth 0 w 0 /\ y = nth 0 v 0) \/
+  exists k, (S k < length w)%nat /\ nth k w 0 <= x /\ x <= nth (S k) w 0 /\
+            y = nth k v 0 + (nth (S k) v 0 - nth k v 0) * (x - nth k w 0) / (nth (S k) w 0 - nth k w 0).
+Definition fill_below (f : fillv) : Qc := match f with FScalar c => c | FPair lo _ => lo end.
+Definition fill_above (f : fillv) : Qc := match f with FScalar c => c | FPair _ hi => hi end.
+(* the value a spectrum with samples (w, v) denotes at wavelength x under fill value f *)
+Definition denotes (w v : list Qc) (f : fillv) (x y : Qc) : Prop :=
+  (x < wmin w /\ y = fill_below f) \/ (wmax w < x /\ y = fill_above f) \/
+  (wmin w <= x /\ x <= wmax w /\ on_interpolant w v x y).
